@@ -201,6 +201,8 @@ func Input(l *InputSharedVars, g *GlobalVarsMain, hPath *HFilePath, driConfig *C
 				// ! PORGES(LT)         = Gesamtporenvolumen (cm^3/cm^3)
 				// ! WNOR(LT)           = Wassergehalt bei Feldkapazität unkorrigiert (cm^3/cm^3)
 
+				// parameters have to be recalculated on changing ground water, if any horizon takes them from HYPAR.TRU
+				g.CAPPAR = 1
 				for L := 1; L <= g.AZHO; L++ {
 					lindex := L - 1
 					AD, err := Hydro(L, g, l, hPath)
@@ -216,7 +218,6 @@ func Input(l *InputSharedVars, g *GlobalVarsMain, hPath *HFilePath, driConfig *C
 						g.AD[LTindex] = AD
 						if g.PTF == 0 {
 							if g.FKA[lindex] > 0 {
-								g.CAPPAR = 1
 								if LT < g.N+1 {
 
 									g.W[LTindex] = g.FKA[lindex] / 100
